@@ -7,6 +7,9 @@ from .common import ReplayCase, case_payload, classify_wellformed, coverage_fina
 
 ID = "C02"
 LEVEL = "exploration"
+MIX = True  # a share of the decodes goes through the other front ends and byte sources (context.py)
+HISTORY = True  # every second shard first runs a prelude of earlier library use (history.py)
+OLANE = True  # two more shards run in an interpreter started with -O (runner.start_olane)
 RULE = (
     "every hypothesis-generated well-formed encoding (coverage pass over all types / command codes / session shapes + random) "
     "decoded strictly, and value-corrupted variants (1-3 constrained leaves replaced by out-of-range values) decoded in warn "
